@@ -73,8 +73,11 @@ def _expand(task):
             driver.check(ctx)
             got = digest(driver.key(ctx))
             if expected is not None and got != expected:
-                raise HarnessError(
-                    f'replay of {hist!r} diverged from its recorded key')
+                # the canonical key is not a function of the history (e.g.
+                # an address-dependent order materialised by the code under
+                # test): states may fail to merge - slower, still sound.
+                # Counted and reported; never a verdict by itself.
+                out.append(('keydrift', hist, None, None))
             ops = _ordered(driver.ops(ctx))
         except Violation as v:
             if v.features.get('isolation'):
@@ -163,6 +166,7 @@ def explore(driver, rep, part=None, max_depth=None, max_states=None,
     per_op = collections.Counter()
     pruned = collections.Counter()
     behind_violation = 0
+    drift = 0
     caps = []
     samples = []
     levels = []
@@ -187,6 +191,9 @@ def explore(driver, rep, part=None, max_depth=None, max_states=None,
             for res, lines in results:
                 rep.covered |= lines
                 for kind, hist, op, data in res:
+                    if kind == 'keydrift':
+                        drift += 1
+                        continue
                     if kind == 'harness':
                         raise HarnessError(f'{part}: after {hist!r} op {op!r}:'
                                            f'\n{data}')
@@ -243,6 +250,7 @@ def explore(driver, rep, part=None, max_depth=None, max_states=None,
                  distinct_observations=len(obs_seen), per_op=dict(per_op),
                  pruned=dict(pruned),
                  not_expanded_behind_violation=behind_violation,
+                 replay_key_mismatches=drift,
                  params=params or {})
     return stats
 
